@@ -72,3 +72,25 @@ def stream(ctx, n_runs, corrs, monitors, acct_types=("STOCK", "FUTURE"), gen=Non
             if op:
                 ctx.sample({"operation": op["op"], "account": op["acct"], "when": str(op["when"][0]), "args": {kk: v for kk, v in op["args"].items() if kk != "dt"},
                             "pre": {kk: op["pre"][kk] for kk in ("total_cash", "frozen")}, "post": {kk: op["post"][kk] for kk in ("total_cash", "frozen")} if op["post"] else None})
+
+
+def fresh_process_run(ctx, S, cfgk, seed, monitor_names, what):
+    """one scenario in a fresh process (harness/fresh_worker.py); the monitors run there, their witnesses are re-issued here"""
+    import os, pickle, subprocess, tempfile, json, vlib
+    here = os.path.dirname(os.path.abspath(__file__))
+    with tempfile.NamedTemporaryFile(dir="/dev/shm", suffix=".pkl", delete=False) as fh:
+        pickle.dump({"S": S, "cfgk": cfgk, "seed": seed, "monitors": monitor_names}, fh)
+    try:
+        pr = subprocess.run(["/venv/bin/python", os.path.join(here, "fresh_worker.py"), fh.name], capture_output=True, text=True,
+                            env=dict(os.environ, PYTHONPATH=vlib.REPO + ":" + here), timeout=600)
+    finally:
+        os.unlink(fh.name)
+    if pr.returncode != 0:
+        raise RuntimeError("fresh_worker failed: " + pr.stderr[-1500:])
+    out = json.loads(pr.stdout.strip().splitlines()[-1])
+    ctx.stats["fresh_process_runs"] += 1
+    ctx.evaluations += out["evaluations"]
+    for w in out["witnesses"]:
+        ctx.witness(w["clause"], dict(w["sig"], fresh_process=True), "in the FIRST run of a fresh process (%s): %s" % (what, w["what"]),
+                    {"seed": seed, "cfg": {k: str(v) for k, v in cfgk.items()}, "fresh_process": True})
+    return out
